@@ -55,6 +55,13 @@ NEEDS = {
  "C37-setitem-same-member-no-append": "index / extended-slice assignment of a list-collection member onto its own position (lst[i] = lst[i], swaps with i == j)",
  "C39-cascade-visited-before-filters": "a pending child reachable from one parent through two relationships with refresh-expire cascade, the non-delete-orphan one declared first; then expire / refresh of the parent",
  "C44-server-version-not-refetched": "server-side version counter on a table without RETURNING, expire_on_commit=False, A updates+commits, B updates+commits, A writes again",
+ "C25-finalizer-guard-fairy-ref-none": "checkout detached without close(), the slot handed to another holder, then the detached proxy garbage collected while that holder is still checked out",
+ "C26-pool-invalidate-skips-invalidated-rec": "pool-wide invalidation raised from the checkout path (failing pre-ping classified as disconnect, or InvalidatePoolError from a checkout handler) while older healthy connections are idle",
+ "C27-disconnect-flag-kept-when-invalidated": "disconnect, a reconnect attempt failing with a disconnect-classified error while the Connection is already invalidated, a later successful reconnect, then an ordinary error",
+ "C23-nested-exit-clears-context-manager": "savepoint block inside a transaction block, the ROOT transaction ended from inside the savepoint block, the savepoint block left, the connection used again inside the outer block",
+ "C24-rollback-impl-skips-on-autocommit-option": "skip_autocommit_rollback=True, the recorded option says AUTOCOMMIT while the driver connection is transactional (reconnect after invalidation, or refused option change), closed with uncommitted writes",
+ "C16-imv-map-from-compiled": "insertmanyvalues batch with a schema-qualified scalar subquery in VALUES + compiled-cache hit under a map that translates that schema differently",
+ "C10-filter-yield-per-not-generative": "on one scalars()/mappings() view: a sized fetchmany / partitions first, then view.yield_per(n), then a size-less fetchmany() / partitions()",
  "C52-default-registry-by-ident": "default (thread-local) scoped_session; a thread ends without remove(); a later thread gets the recycled thread identifier",
 }
 base = "/verif/seeded"
